@@ -144,6 +144,76 @@ Proof. exact noninterference_of_unused_claims. Qed.
 Print Assumptions C09_noninterference_never_read.
 
 (* ---------------------------------------------------------------------------
+   Location faithfulness: from a finding to the statement that defines the flagged SSA name.
+   [cfg_stmts g] lists every statement of the graph in visiting order; [is_def_of x s] says that s is
+   a non-phi assignment to x (Spec.DefSite).
+   --------------------------------------------------------------------------- *)
+Require Import Spec.DefSite Proofs.DefSiteProofs.
+Require Model.SsaCheck.
+
+(* No hypothesis on the graph: the location of a claim about a variable or parameter is the location
+   of the LAST non-phi assignment to the flagged name in visiting order (`HashMap::insert` replaces);
+   only a parameter that no statement assigns carries [meta0] (the parameter list, which the IR dump
+   does not carry; the engine compares no location for it). *)
+Theorem C09_location_is_last_definition :
+  forall (g : cfg) (br : list (N * (list N * list N))) (res : result) (f : finding),
+    run_side_effect_analysis g br = Ok res ->
+    In f (r_findings res) ->
+    is_variable_claim f = true ->
+    (exists pre post op rhe sv t,
+        cfg_stmts g = pre ++ SSubst (f_meta f) (f_var f) op rhe sv (Some t) :: post /\
+        is_phi_expr rhe = false /\
+        forall s', In s' post -> is_def_of (f_var f) s' = false)
+    \/ (In (f_var f) (c_params g) /\ f_meta f = meta0 /\
+        forall s', In s' (cfg_stmts g) -> is_def_of (f_var f) s' = false).
+Proof. exact finding_location_last_definition. Qed.
+Print Assumptions C09_location_is_last_definition.
+
+(* On a graph accepted by the verified SSA validator (unique definitions: Proofs.SsaProofs.
+   ssa_check_unique_defs = C14_unique_defs) the statement at the reported location is the ONLY
+   statement of the graph, phi statements included, that assigns the flagged versioned name. *)
+Theorem C09_location_is_unique_definition :
+  forall (g : cfg) (idom : list (option N)) (br : list (N * (list N * list N))) (res : result) (f : finding),
+    SsaCheck.ssa_check g idom = true ->
+    run_side_effect_analysis g br = Ok res ->
+    In f (r_findings res) ->
+    is_variable_claim f = true ->
+    vn_version (f_var f) <> None ->
+    (exists pre post op rhe sv t,
+        cfg_stmts g = pre ++ SSubst (f_meta f) (f_var f) op rhe sv (Some t) :: post /\
+        is_phi_expr rhe = false /\
+        forall s', In s' (pre ++ post) -> SsaCheck.stmt_def s' <> Some (f_var f))
+    \/ (In (f_var f) (c_params g) /\ f_meta f = meta0 /\
+        forall s', In s' (cfg_stmts g) -> is_def_of (f_var f) s' = false).
+Proof. exact finding_location_unique_definition. Qed.
+Print Assumptions C09_location_is_unique_definition.
+
+(* The same from the one conjunct of the validator that is needed; [nodup_v (all_defs g)] is
+   evaluated by the model driver on every dumped graph (field `ud` of its output). *)
+Theorem C09_location_is_unique_definition_nodup :
+  forall (g : cfg) (br : list (N * (list N * list N))) (res : result) (f : finding),
+    SsaCheck.nodup_v (SsaCheck.all_defs g) = true ->
+    run_side_effect_analysis g br = Ok res ->
+    In f (r_findings res) ->
+    is_variable_claim f = true ->
+    vn_version (f_var f) <> None ->
+    (exists pre post op rhe sv t,
+        cfg_stmts g = pre ++ SSubst (f_meta f) (f_var f) op rhe sv (Some t) :: post /\
+        is_phi_expr rhe = false /\
+        forall s', In s' (pre ++ post) -> SsaCheck.stmt_def s' <> Some (f_var f))
+    \/ (In (f_var f) (c_params g) /\ f_meta f = meta0 /\
+        forall s', In s' (cfg_stmts g) -> is_def_of (f_var f) s' = false).
+Proof. exact finding_location_unique_definition_nodup_b. Qed.
+Print Assumptions C09_location_is_unique_definition_nodup.
+
+(* The definitions loop makes at most one claim per name: the keys of the definitions map are distinct. *)
+Theorem C09_one_definition_entry_per_name :
+  forall (g : cfg) (br : list (N * (list N * list N))),
+    NoDup (map d_name (t_defs (run_taint_analysis g br))).
+Proof. exact definitions_keys_distinct. Qed.
+Print Assumptions C09_one_definition_entry_per_name.
+
+(* ---------------------------------------------------------------------------
    The hypotheses are satisfiable, and the repaired defect: `var x = in0 + 1; x === 5;`
    --------------------------------------------------------------------------- *)
 Definition w_in0 : vname := {| vn_name := [105; 110; 48]%N; vn_suffix := None; vn_version := None |}.
@@ -171,3 +241,21 @@ Proof. vm_compute. reflexivity. Qed.
 Example C09_single_name_constraint_repaired :
   omap (fun r => filter is_variable_claim (r_findings r)) (run_side_effect_analysis w_cfg []) = Ok [].
 Proof. vm_compute. reflexivity. Qed.
+
+(* location faithfulness is not vacuous: `var x = in0 + 1;` (x never read) passes the SSA validator,
+   and the mirror reports x.0 at the span of that statement *)
+Definition w_cfg_dead : cfg :=
+  {| c_kind := KTemplate; c_params := [];
+     c_decls := [(w_in0, TSigIn); (w_x0, TLocal)];
+     c_blocks := [ {| b_index := 0; b_depth := 0;
+                      b_stmts := [ SDecl (w_m 17 33) [w_in0] TSigIn [];
+                                   SDecl (w_m 37 52) [w_x0] TLocal [];
+                                   SSubst (w_m 37 52) w_x0 OpVar
+                                     (EInfix IAdd (EVar w_in0 know0) (ENum 1 know0) know0) None (Some TLocal) ];
+                      b_preds := []; b_succs := [] |} ] |}.
+Example C09_location_hypotheses_satisfiable :
+  SsaCheck.ssa_check w_cfg_dead [None] = true /\
+  SsaCheck.nodup_v (SsaCheck.all_defs w_cfg_dead) = true /\
+  omap (fun r => map (fun f => (f_kind f, f_var f, f_meta f)) (filter is_variable_claim (r_findings r)))
+       (run_side_effect_analysis w_cfg_dead []) = Ok [(FUnusedVar, w_x0, w_m 37 52)].
+Proof. vm_compute. repeat split; reflexivity. Qed.
